@@ -13,9 +13,11 @@
 #   1. a crate whose cache holds a session left in "-working" state is rebuilt
 #      without that cache;
 #   2. a failed build is retried once with all incremental caches and the
-#      workspace crates' artifacts dropped (about 3 minutes on 16 cores);
-#   3. if that still fails and the log shows no compiler diagnostic (error[E…]),
-#      the whole build directory is dropped and built cold (about 12 minutes).
+#      workspace crates' artifacts dropped, on half the cores (about 5 minutes;
+#      this also absorbs a transient failure such as a rustc out of memory);
+#   3. if that still fails and the log shows damaged artifacts or a dead tool
+#      (link failure, signal, ICE, out of memory, unreadable/invalid metadata),
+#      the whole build directory is dropped and built cold (12 to 18 minutes).
 # A genuine compile error in /repo or the harness is reported after step 2.
 set -u
 ROOT="$(cd "$(dirname "$0")/.." && pwd)"
@@ -28,10 +30,14 @@ LOG="$ROOT/harness/target/last_build.log"
 exec 9>"$ROOT/harness/target/.verif-build.lock"
 flock 9
 
+# $1 = number of parallel jobs (empty: cargo's default, one per core)
 build() {
-  cargo build --release --offline >"$LOG" 2>&1 &&
+  cargo build --release --offline ${1:+-j "$1"} >"$LOG" 2>&1 &&
     [ -s target/release/vsim ] && [ -s target/release/vshuttle ]
 }
+# the retries run with half the cores: a cold build from a clean clone was seen
+# to lose one rustc to "LLVM ERROR: out of memory" on this 62 GB / no-swap VM
+HALF=$(( ($(nproc 2>/dev/null || echo 2) + 1) / 2 ))
 
 INC="target/release/incremental"
 for w in "$INC"/*/s-*-working; do
@@ -47,13 +53,15 @@ echo "build.sh: build failed; retrying without incremental caches" >&2
 cp "$LOG" "$LOG.attempt1" 2>/dev/null
 rm -rf "$INC"
 cargo clean --release --offline -p vsim -p vshuttle -p saorsa-core >/dev/null 2>&1
-build && exit 0
+build "$HALF" && exit 0
 
-if ! grep -q '^error\[E' "$LOG"; then
-  echo "build.sh: build failed again with no compiler diagnostic; rebuilding from an empty build directory" >&2
+# signs that artifacts on disk (not sources) are at fault, or that a tool died
+DAMAGE='linking with .* failed|rust-lld: error|ld returned|\(signal: |internal compiler error|out of memory|Allocation failed|invalid metadata|E0460|E0461|E0463|E0464|E0786|failed to (read|load|open|mmap|parse)|No such file or directory|extern location for .* does not exist'
+if grep -Eq "$DAMAGE" "$LOG"; then
+  echo "build.sh: build failed again on damaged artifacts or a dead tool; rebuilding from an empty build directory" >&2
   cp "$LOG" "$LOG.attempt2" 2>/dev/null
   rm -rf target/release
-  build && exit 0
+  build "$HALF" && exit 0
 fi
 
 grep -v '^ *>>>' "$LOG" | cut -c1-400 | tail -40 >&2
